@@ -214,6 +214,22 @@ EXTRA7 = {
 }
 for _pid, (_t, _n) in EXTRA7.items():
     EXTRA[_pid] = (EXTRA.get(_pid, ("", ""))[0] + _t, EXTRA.get(_pid, ("", ""))[1] + _n)
+EXTRA8 = {
+ "C01": (" A grid whose repeated time is not the first one: beyond the frac-face node the zero-length step stores the previous level.", ""),
+ "C02": (" The mesh replay includes a fluid whose scaled pseudopressure is in units where m_i = 3.", ""),
+ "C03": (" The scaled diffusivity the balance rests on is alpha(m)/alpha(m_i) for any positive diffusivity values (also above 1), replayed on a consistent table whose diffusivity falls with pressure.", ""),
+ "C04": (" The replay family runs logarithmic time grids (ten decades of mesh ratio) on 12 and 60 nodes.", " scipy.sparse.linalg.spilu is an engine gap (an incomplete LU is not an exact solve)."),
+ "C07": (" Bg with its default standard conditions refers to the library's standard conditions.", ""),
+ "C08": (" The stand-alone transform leaves its columns alone and returns the same rows when called again on them (arrays and Series).", ""),
+ "C10": (" Histories in which the caller rescales, in place, the time array it simulated on and simulates on it again.", ""),
+ "C13": (" dR_s/dp after the same calls for an oil that differs only in gas gravity.", ""),
+ "C17": (" The interpolator of one run evaluated after a later run of the same object on another grid.", ""),
+ "C18": (" The objective replay includes a table whose recovery factor rises above 1.", ""),
+ "C19": (" A composition array still describes its gas after another gas's composition was built.", ""),
+ "C20": (" The reservoir object handed to the plots carries a fluid whose m_i differs from the field's initial value.", ""),
+}
+for _pid, (_t, _n) in EXTRA8.items():
+    EXTRA[_pid] = (EXTRA.get(_pid, ("", ""))[0] + _t, EXTRA.get(_pid, ("", ""))[1] + _n)
 for _pid, (_t, _n) in EXTRA.items():
     CHECKS[_pid]["text"] += _t
     CHECKS[_pid]["note"] += _n
